@@ -390,4 +390,13 @@ def show(diffs, n=3):
 
 def field_class(path):
     """Coarse class of a differing path for violation signatures: section + field names, no indices."""
-    return '/'.join(str(p) for p in path if not isinstance(p, int))
+    out, skip = [], False
+    for p in path:
+        if skip:
+            skip = False        # the block / rock name that keys an INCON / INDOM entry is an index, not a field
+            continue
+        if isinstance(p, int):
+            continue
+        out.append(str(p))
+        skip = p in ('INCON', 'INDOM')
+    return '/'.join(out)
